@@ -53,10 +53,10 @@ func checkC15(c *Ctx) {
 	c.RuleB("C3.term", reach, chain, map[string]bool{"DEPENDENCY": true})
 	c.ruleOrder()
 	c.ruleShortWrite("C4.shortwrite")
-	c.R.Floor("C1.dropped", 40)
-	c.R.Floor("C2.surface", 40)
+	c.R.Floor("C1.dropped", 15)
+	c.R.Floor("C2.surface", 15)
 	c.R.Floor("C.order", 3)
-	c.R.Floor("C4.shortwrite", 2)
+	c.R.Floor("C4.shortwrite", 1)
 }
 
 // ruleOrder: C-order-1/2 — effects only behind the success edge of signing.
